@@ -343,14 +343,25 @@ def run_real(stages, op, values, mode=None, real=None):
         it = Sequence(Sequence(*els[:cut]), Sequence(*els[cut:])).run(src())
     elif driver == "source":
         it = Source(src, *els)()
-    elif driver in ("alter_static", "alter_meta"):
-        seq = Sequence(*els)
+    elif driver in ("alter_static", "alter_meta", "alter_nested"):
+        if driver == "alter_nested":
+            # nested sequences: alter_sequence works on the flattened sequence
+            cut = op.get("cut", 1) % (len(els) + 1)
+            head = [Sequence(*els[:cut])] if cut else []
+            if op.get("cut", 1) % 2:
+                seq = Sequence(*(head + list(els[cut:])))
+            else:
+                seq = Sequence(*(head + [Sequence(*els[cut:])]))
+            driver = "alter_static"
+            how = "alter_nested"
+        else:
+            seq = Sequence(*els)
         if driver == "alter_static":
             new = Cache.alter_sequence(seq)
         else:
             new = lena.core.alter_sequence(seq)
         if isinstance(new, Source):
-            how = driver + ":source"
+            how = how + ":source"
             it = new()
         else:
             it = new.run(src())
@@ -483,7 +494,7 @@ plain_stage = st.one_of(
     st.builds(lambda p: ["filter", p], st.sampled_from(["even", "not3", "all", "none", "even"])),
 )
 
-DRIVERS = ["seq", "seq", "source", "alter_static", "alter_meta", "nested", "split1"]
+DRIVERS = ["seq", "seq", "source", "alter_static", "alter_meta", "nested", "split1", "alter_nested"]
 
 
 @st.composite
@@ -520,7 +531,7 @@ def history_case(draw):
             ops.append({"op": "drop", "which": draw(st.sampled_from(names))})
             continue
         op = {"op": "run", "driver": draw(st.sampled_from(DRIVERS)), "stop": ["complete"]}
-        if op["driver"] == "nested":
+        if op["driver"] in ("nested", "alter_nested"):
             op["cut"] = draw(st.integers(0, nstages))
         if op["driver"] == "split1":
             op["bufsize"] = draw(st.sampled_from([None, 1000]))
@@ -534,7 +545,7 @@ def history_case(draw):
         ops.append(op)
     # every history ends with a complete plain run that reveals what was kept
     # (in a new program: fresh elements even if the history re-used its own)
-    ops.append({"op": "run", "driver": draw(st.sampled_from(DRIVERS)), "stop": ["complete"], "cut": 1, "bufsize": None,
+    ops.append({"op": "run", "driver": draw(st.sampled_from(DRIVERS)), "stop": ["complete"], "cut": draw(st.integers(0, nstages)), "bufsize": None,
                 "n": draw(st.sampled_from([n, n, n + 1, 2]))})
     case["ops"] = ops
     return case
@@ -572,7 +583,7 @@ def crash_point_cases(tier):
 CHECKS = [
     Check("histories", judge_history, strategy=lambda tier: history_case(), quick=1500, thorough=50000,
           rule="pipelines pre* Cache [mid* Cache] post* x flows 0-8 (bare / fresh context / one shared context object updated in place / contexts large enough to cross file-buffer boundaries) x histories of 1-6 operations "
-               "(complete run, take k, process killed after k values, raise at the source or any stage at its k-th value, recompute per cache, drop_cache) x drivers (Sequence, nested Sequences, Source, Cache.alter_sequence, "
+               "(complete run, take k, process killed after k values, raise at the source or any stage at its k-th value, recompute per cache, drop_cache) x drivers (Sequence, nested Sequences, Source, Cache.alter_sequence on flat and on nested sequences, "
                "lena.core.alter_sequence, single-block Split; fresh elements per run, or the same Sequence / Source object run again), ending with a complete run. "
                "Non-trivial = an interrupted fill (0 < k < n values delivered) followed by a completed run, or two caches with a replay."),
     Check("crash_points", judge_history, cases=crash_point_cases, exhaustive=True,
